@@ -357,7 +357,15 @@ def gen_ext_late(rng, hb=0.004):
             nxt[0] += 1
         return out
     script = [('connect',)]
-    flavour = rng.choice(['startdisp', 'pause'])
+    flavour = rng.choice(['startdisp', 'pause', 'empty-startdisp'])
+    if flavour == 'empty-startdisp':
+        # the pull is cancelled while the queue is EMPTY (its helper must be gone afterwards, not parked on the queue where it would
+        # take the first message of the callback phase), then the switch to callbacks, then traffic
+        script += [('recv', 11), ('turns', rng.randint(1, 4)), ('cancel', 11), ('turns', rng.randint(0, 3)), ('startdisp',), ('advance', 0.0005)]
+        script += cut_stream(msgs(rng.randint(2, 4)), codec, rng, rng.choice(['whole', 'per-frame'])) + [('advance', 0.0005)]
+        if rng.random() < 0.3:
+            script += [('close', 12)]
+        return cfg, script, 0.05
     if flavour == 'startdisp':
         script += [('recv', 11), ('turns', rng.randint(1, 3))]
     else:
